@@ -92,13 +92,13 @@ def fit_frames(totallen, chunklen, steplen=None):
         raise ValueError(f"invalid totalsize ({totallen})")
     if ((chunklen % 1) != 0) or (chunklen <= 0):
         raise ValueError(f"invalid chunklen ({chunklen})")
+    if steplen is not None:
+        if ((steplen % 1) != 0) or (steplen <= 0):
+            raise ValueError("invalid stepsize")
     if chunklen > totallen:
         return 0, 0, int(totallen)
     if steplen is None:
         steplen = chunklen
-    else:
-        if ((steplen % 1) != 0) or (steplen <= 0):
-            raise ValueError("invalid stepsize")
     totallen = int(totallen)
     chunklen = int(chunklen)
     steplen = int(steplen)
